@@ -4,8 +4,10 @@ labelled so.  Every lock-granularity schedule (preemption bound 2 / 3) of the ra
 real handlers (the machinery of checks/c01conc.py) and the hook snapshot at quiescence is judged directly: in every session
 that exists then, no non-persistent entity is owned by a participant that is not a member, and the persistent entities
 created before the race are still there while the session incarnation they were created in lives.  (Whether a session exists
-at all and who is in it is C07's concurrent clause; what the joiner's view holds is C01's.)  There is no Coq model of this
-race beyond Conc.v's registry; the verdict of this part is by exploration only."""
+at all and who is in it is C07's concurrent clause; what the joiner's view holds is C01's.)  The model side: coq/ConcLeave.v
+(one instruction per critical section of a departure: snapshot of the own-set, per entity a look-up and a removal, the removal
+of the participant) with theorems for every schedule (Properties/ConcLeave.v) and the regenerated fact that leaveSession is that
+full departure (Properties/C06leave.v over GenStore.v); on the real code the verdict is by exploration."""
 import json, os, time
 from . import common as C
 from . import c01conc
@@ -57,7 +59,7 @@ def run(tier="quick", replay=None, merge=True):
             ok, what, paths = c01conc.build()
     except RuntimeError as e:
         print("INTERNAL: " + str(e)); return 2
-    cov = {"scenarios": [], "tie_broken": [], "level_of_this_part": "exploration (no Coq model of this race beyond the registry of Conc.v)"}
+    cov = {"scenarios": [], "tie_broken": [], "level_of_this_part": "theorems for every schedule over the interleaving model coq/ConcLeave.v + regenerated fact about leaveSession (GenStore.v) + exploration of the real handlers"}
     viol = []
     if not ok:
         if what.startswith("INTERNAL"):
@@ -91,12 +93,19 @@ def run(tier="quick", replay=None, merge=True):
                     viol.append({"kind": "property", "replay": rp, "what": name, "schedule": ex.choices})
         cov.update({"traces_validated_against_impl": nexec, "evaluations": nexec,
                     "rule": "one case = one complete schedule of the race on the instrumented real handlers; every lock acquisition of the racing requests is a scheduling point"})
+    info, tie = ({"ok": True, "theorems": [], "examples": []}, None) if replay else C.store_clause_info("C06leave", "ConcLeave")
+    if tie:
+        cov["tie_broken"].append(tie)
+        if not viol:
+            rp = C.write_replay(PID, "replay-c06leave-unchecked.json", {"property": PID, "unchecked": tie,
+                                "searched": "every schedule of the race scenarios within the preemption bound on the instrumented real handlers: no failing schedule"})
+            viol.append({"kind": "tie", "replay": rp, "what": tie})
     rc = 0
     for v in viol:
         C.violation(PID, v["replay"], no_input=(v["kind"] != "property")); rc = 1
         break
-    info = {"ok": True, "theorems": [], "examples": []}
-    assumptions = ["concurrent reading (beyond the property's quantifier): decided by bounded exploration only (preemption bound 2, 3 in the thorough tier for two racers)"]
+    assumptions = ["concurrent reading (beyond the property's quantifier): for the model, every schedule (Properties/ConcLeave.v: C06_conc_no_orphans_always, C06_conc_departure_exact, "
+                   "C06_conc_persistent_survive; one participant id per connection and stay, fewer than 2^32 steps); on the real handlers, bounded exploration (preemption bound 2, 3 in the thorough tier for two racers)"]
     tb = ["tools/instrument + verifsched + harness/l3v (see C01's concurrent clause); the verdict of this part reads the hook snapshots at quiescence directly (checks/c06conc.py), no extracted model is involved"]
     if merge:
         err = C.merge_evidence(PID, "concurrent_reading", cov, info, assumptions, tb, rc, time.time() - t0, "", [dict(v) for v in viol])
